@@ -40,13 +40,13 @@ func c10Alphabet(tier string) []*explore.Action {
 		scen.Msg("basket.Create(A,[C01,C02,C09,C08])!", &baskettypes.MsgCreate{Curator: scen.A.String(), Name: "MULTI", DisableAutoRetire: true, CreditTypeAbbrev: "C",
 			AllowedClasses: []string{"C01", "C02", "C09", "C08"}, Fee: sdk.NewCoins(sdk.NewInt64Coin("uregen", 10))}),
 		scen.Msg("UpdateClassFee(G,7uregen)", &basetypes.MsgUpdateClassFee{Authority: scen.G.String(), Fee: &sdk.Coin{Denom: "uregen", Amount: sdk.NewInt(7)}}),
+		scen.Msg("Anchor(B,R1)", &data.MsgAnchor{Sender: scen.B.String(), ContentHash: scen.RawHash(1)}), // data ids come from the module's own (production) hasher
 	}
 	if tier == "thorough" {
 		a = append(a,
 			scen.Msg("CreateClass(D,fee=1)!", &basetypes.MsgCreateClass{Admin: scen.D.String(), Issuers: []string{scen.D.String()}, Metadata: "m", CreditTypeAbbrev: "C", Fee: &sdk.Coin{Denom: "uregen", Amount: sdk.NewInt(1)}}),
 			scen.Take(scen.B, scen.NCT, "1500000", false),
 			scen.CreateBatch(scen.A, "C01-001", time.Date(2022, 1, 1, 0, 0, 0, 0, time.UTC), time.Date(2023, 1, 1, 0, 0, 0, 0, time.UTC), true, nil, scen.Iss(scen.B, "2", "1")),
-			scen.Msg("Anchor(B,R1)", &data.MsgAnchor{Sender: scen.B.String(), ContentHash: scen.RawHash(1)}),
 			scen.Msg("Attest(C,G1)", &data.MsgAttest{Attestor: scen.C.String(), ContentHashes: []*data.ContentHash_Graph{scen.GraphHash(1)}}),
 			scen.Retire(scen.D, scen.B1, "1"), // fails: D holds nothing
 		)
@@ -460,7 +460,7 @@ func init() {
 		o.Coverage["traces_validated_note"] = "every trace and variant is an execution of the real application through ABCI; states = distinct per-block AppHashes of the reference runs, transitions = blocks executed"
 		o.Coverage["evaluations"] = st.Runs + shim.Runs
 		o.Coverage["distinct_nontrivial"] = st.Traces
-		o.Coverage["rule"] = "all traces of B blocks with <= M messages each over the alphabet (quick: B=2, M=2, 9 messages; thorough: B=2,M=2 and B=3,M=1 over 13 messages, two block-time gaps in the 3-block traces); per trace: every non-empty subset of block boundaries as restart points, one repetition, the trace with its failed messages deleted; in the shim build: the second wall-clock instant, two other process time zones (time.Local = UTC-5, UTC+9) and every single (thorough: every pair of) deviating map-range instance(s) with all permutations for <= 3 keys, else descending and rotated"
+		o.Coverage["rule"] = "all traces of B blocks with <= M messages each over the alphabet (quick: B=2, M=2, 9 messages; thorough: B=2,M=2 and B=3,M=1 over 14 messages, two block-time gaps in the 3-block traces); per trace: every non-empty subset of block boundaries as restart points, one repetition, the trace with its failed messages deleted; in the shim build: the second wall-clock instant, two other process time zones (time.Local = UTC-5, UTC+9) and every single (thorough: every pair of) deviating map-range instance(s) with all permutations for <= 3 keys, else descending and rotated"
 		o.Coverage["exhaustive"] = exhaustive
 		o.Coverage["samples"] = []interface{}{traces[0].String(), traces[len(traces)/2].String(), traces[len(traces)-1].String()}
 		o.Coverage["traces_total"] = len(traces)
